@@ -273,6 +273,11 @@ fn end_text(v: Option<i64>, lower: bool, ctx: &str) -> String {
         Some(v) => match ctx {
             "valref" => name_of(v, "v"),
             "named" | "namedself" => name_of(v, "n"),
+            // one end given by a reference, the other by a literal
+            "valref-lo" if lower => name_of(v, "v"),
+            "valref-hi" if !lower => name_of(v, "v"),
+            "named-lo" if lower => name_of(v, "n"),
+            "named-hi" if !lower => name_of(v, "n"),
             _ => v.to_string(),
         },
     }
@@ -357,13 +362,13 @@ pub fn text(c: &Case) -> String {
             // first constraint on the parent, second on the reference
             body += &format!("P ::= {}\nA ::= P {}", base(&first), one(&c.cons[1]));
         }
-        "valref" => {
+        "valref" | "valref-lo" | "valref-hi" => {
             for v in finite_points(c) {
                 body += &format!("{} INTEGER ::= {}\n", name_of(v, "v"), v);
             }
             body += &format!("A ::= {}", base(&all));
         }
-        "named" => {
+        "named" | "named-lo" | "named-hi" => {
             let nn: Vec<String> = finite_points(c).iter().map(|v| format!("{}({})", name_of(*v, "n"), v)).collect();
             body += &format!("D ::= INTEGER {{ {} }}\nA ::= D {}", nn.join(", "), all);
         }
@@ -579,7 +584,7 @@ impl Prop for C04 {
                 if finite_points(&mk(vec![e.clone()], "INTEGER", "assign", false, false)).is_empty() {
                     continue;
                 }
-                for ctx in ["valref", "named", "namedself"] {
+                for ctx in ["valref", "named", "namedself", "valref-lo", "valref-hi", "named-lo", "named-hi"] {
                     out.push(mk(vec![with_ext(e, x)], "INTEGER", ctx, false, false));
                 }
             }
